@@ -24,7 +24,7 @@ def main():
     rep = []
     bad = 0
     for sd in seeds:
-        for cid in ALL:
+        for cid in (os.environ.get("UNCHANGED_CHECKS", "").split() or ALL):
             env = dict(os.environ, VERIF_SEED=str(sd), VERIF_EVIDENCE_DIR=os.path.join(SCRATCH, "ev"), VERIF_REPLAY_DIR=os.path.join(SCRATCH, "rp"))
             p = subprocess.run("cd %s && /venv/bin/python checks/run.py %s --tier quick" % (ROOT, cid), shell=True, env=env,
                                capture_output=True, text=True, timeout=1200)
@@ -36,7 +36,12 @@ def main():
             bad += 0 if ok else 1
             print("seed=%-3d %s rc=%d %s %s" % (sd, cid, p.returncode, "ok" if ok else "ALARM", (viol[:1] or [""])[0][:300]))
             sys.stdout.flush()
-    with open(os.path.join(HERE, "unchanged_seeds_report.json"), "w") as fh:
+    rp = os.path.join(HERE, "unchanged_seeds_report.json")
+    if os.environ.get("UNCHANGED_CHECKS") and os.path.exists(rp):
+        # a partial re-run (only the checks that changed) replaces those entries and keeps the others
+        new = dict(((r["seed"], r["check"]), r) for r in rep)
+        rep = [new.pop((r["seed"], r["check"]), r) for r in json.load(open(rp))] + list(new.values())
+    with open(rp, "w") as fh:
         json.dump(rep, fh, indent=1)
     shutil.rmtree(SCRATCH, ignore_errors=True)
     print("alarms: %d of %d runs" % (bad, len(rep)))
